@@ -148,11 +148,12 @@ C14Fails(c) ==
       \* (for a pure cycle, which dovetail closes it depends on the rotation: any reading counts)
       XC == {w \in C : \E v \in Variants(G, w) : HasMismatchJoin(G, v)}
       \* the sets of chains that may have been merged: all of them; if the call succeeded, at
-      \* least those without X; if it was refused because of an X chain, none with X (those
-      \* merged before the refusal are merged correctly, everything else is untouched)
+      \* least those without X; if it was refused, at least one chain with X is not merged
+      \* (the refused one; those merged before the refusal are merged correctly -- a cycle
+      \* possibly in a reading that avoids its X dovetail --, everything else is untouched)
       allowed == IF XC = {} THEN {C}
                  ELSE IF c.m1.res = "ok" THEN {S \in SUBSET C : C \ XC \subseteq S}
-                 ELSE {S \in SUBSET C : S \cap XC = {}}
+                 ELSE {S \in SUBSET C : XC \ S # {}}
       good == {S \in allowed : MergeFails(c, G, P1, SetToSeq(S)) = {}}
       refusedOK == XC # {} /\ c.m1.res \in {"Error"}
       foreign == c.lps.res = "FOREIGN" \/ c.m1.res = "FOREIGN" \/ c.m2.res = "FOREIGN"
